@@ -65,6 +65,10 @@ pub fn check_diffs(
         if !h.check(touched.contains(k), &format!("{prop}/diff/entry-for-untouched-address"), || format!("diff for {k}, call touched {touched:?}")) {
             return false;
         }
+        // an entry "nobody -> nobody" reports a removal (or arrival) that did not happen
+        if !h.check(old.is_some() || new.is_some(), &format!("{prop}/diff/entry-reports-a-change-for-a-non-member"), || format!("diff {k}: old={old:?} new={new:?}")) {
+            return false;
+        }
         let expect_old = cur.get(k).cloned().unwrap_or_else(|| before.get(k).cloned());
         if !h.check(*old == expect_old, &format!("{prop}/diff/old-weight-untrue"), || {
             format!("diff {k}: old={old:?}, true previous weight {expect_old:?}")
